@@ -255,6 +255,16 @@ Theorem C02_go_shr_is_mathematical :
 Proof. exact go_shr_math. Qed.
 Print Assumptions C02_go_shr_is_mathematical.
 
+(** passing a float result as an argument of an interpreted function: the copy is skipped for
+    values reflect calls zero, negative zero included (the only float defect with a Coq model) *)
+Theorem C02_pass_arg_partial : forall v, v <> FZero true -> y_pass_arg v = g_pass_arg v.
+Proof. exact pass_arg_partial. Qed.
+Print Assumptions C02_pass_arg_partial.
+
+Theorem C02_negzero_arg_refuted : y_pass_arg (FZero true) = FZero false /\ g_pass_arg (FZero true) = FZero true.
+Proof. exact negzero_arg_refuted. Qed.
+Print Assumptions C02_negzero_arg_refuted.
+
 (** the full statement is false of the faithful model *)
 Theorem C02_statement_refuted : ~ C02_statement.
 Proof. exact statement_refuted. Qed.
